@@ -14,8 +14,9 @@ Import ListNotations.
 Require Import PyBase Solver.
 Open Scope Z_scope.
 
-(* labels of the snapshots: 'start', 'before', the iteration number (0 = just before the first pass), 'end' *)
-Inductive tlabel : Type := LStart | LBefore | LIter (k : nat) | LEnd.
+(* labels of the snapshots: 'start', 'before', the iteration number (0 = just before the first pass), 'end';
+   LUser n = any other label a user hands to the public trace_t / trace_period (labels are `Any`) *)
+Inductive tlabel : Type := LStart | LBefore | LIter (k : nat) | LEnd | LUser (n : nat).
 
 (* the `trace=` keyword as passed: None, a bool, one name, a list of names (a name = row number in `names`;
    a row number beyond the store is a name the container does not know) *)
@@ -66,6 +67,17 @@ Section Tracer.
         then (mkTrace (tr_names x) (tr_index x ++ [lab]) (tr_values x ++ [res]), None)
         else (mkTrace (tr_names x) (tr_index x ++ [lab]) (tr_values x), Some ValueError)
     end.
+
+  (* Trace.to_dataframe(): DataFrame(values.T, index=index, columns=names) — an empty Trace gives an empty frame; pandas
+     raises ValueError unless there is one label per stored column and one name per row of every column.  The frame is
+     returned as (row labels, column names, rows = the snapshots). *)
+  Definition wf_trace (x : trace) : bool :=
+    Nat.eqb (length (tr_index x)) (length (tr_values x))
+    && forallb (fun c => Nat.eqb (length c) (length (tr_names x))) (tr_values x).
+  Definition to_dataframe (x : trace) : outcome (list tlabel * list nat * list (list num)) :=
+    if is_empty x then Ret ([], [], [])
+    else if wf_trace x then Ret (tr_index x, tr_names x, tr_values x)
+    else Raise ValueError.
 
   (* trace_t's choice of names: str -> [str]; Sequence -> itself; otherwise TRACE_VARIABLES or all names *)
   Definition names_of (cfg : tcfg) (nvars : nat) (a : targ) : list nat :=
